@@ -45,7 +45,6 @@ def classify4 (cfg : Cfg) (p p1 p2 : Program) (_edb : DB) (parts : List String) 
     "last_rule_head_not_last_head"
   else if parts.getD 4 "" != "1" && cfg.ms then "magic_seed_in_input_tuples"
   else if [p, p1, p2].any (lastHeadMultiClauseWithSip cfg) then "last_head_multi_clause_with_sip"
-  else if [p, p1, p2].any (repeatedVarUnderJoinPlanning cfg) then "repeated_var_in_scan_under_join_planning"
   else "unclassified"
 
 def verdict4 (cfg : Cfg) (p p1 p2 : Program) (edb : DB) (impl : String) : String × Bool :=
